@@ -3,6 +3,10 @@
 // Tier K harness module, child of src/assemble.rs.
 use super::*;
 #[allow(unused_imports)]
+use crate::{build::dyn_builder::DynCallPatternBuilder, call_pattern::CallPattern, fn_mocker::{FnMocker, PatternMatchMode}, output::OutputError, MockFnInfo};
+#[allow(unused_imports)]
+use core::any::TypeId;
+#[allow(unused_imports)]
 use crate::alloc::{vec, String, Vec};
 use crate::call_pattern::__verif_call_pattern_h as ph;
 use crate::call_pattern::DynCallOrderResponder;
